@@ -79,9 +79,16 @@ def build(spec: dict):
             if i in holes:
                 continue
             ln = min(chunk, size - i * chunk)
-            p = Pat(key_for(layer, i), ln)
-            fh.put(i * chunk, p)
-            lay.put(i * chunk, p)
+            skip = 0
+            if i == 0 and spec.get("nested_head"):
+                inner = {"kind": "dynamic", "size": size + (3 << 20), "dyn_offset": 512, "table_offset": 1536, "block_size": 1 << 21}
+                head = Lit(footer_bytes(inner) + dyn_header_bytes(inner, 7))
+                fh.put(0, head)
+                lay.put(0, head)
+                skip = head.length
+            p = Pat(key_for(layer, i), ln - skip, base=skip)
+            fh.put(i * chunk + skip, p)
+            lay.put(i * chunk + skip, p)
         fh.put(size, footer)
         meta["metadata_bytes"] = 512
         return fh, lay, meta
